@@ -707,6 +707,13 @@ fn gen_case(rng: &mut Rng, imp: &str) -> Vec<String> {
         let r = rng.below(100);
         if r < 80 {
             ops.push("unlinked".into());
+            if tou && rng.chance(4, 5) {
+                // the task has terminated: a few more ops only to see `gone`
+                for _ in 0..rng.below(3) {
+                    ops.push(if rng.chance(1, 2) { "linked".into() } else { event(rng, is_map, takedrop) });
+                }
+                break;
+            }
         } else if r < 88 {
             ops.push("eof".into());
             ops.push("reconnect".into());
